@@ -1,7 +1,7 @@
 (* C02 -- Recorded call sites are exactly the invocations written in the source.
    Only statements live here; every proof is [exact <lemma of Proofs/JavaFullProofs.v>]. *)
 From Coq Require Import String List Bool Arith.
-From Coca Require Import Lib.GoMap Lib.Str Model.CodeModel Model.JavaFull Proofs.JavaFullProofs.
+From Coca Require Import Lib.GoMap Lib.Str Model.CodeModel Model.JavaFull Proofs.JavaFullProofs Proofs.RuneProofs.
 Import ListNotations.
 Open Scope string_scope.
 
@@ -89,3 +89,29 @@ Example C02_example :
                 ("p.q", "A", "help", 7, 20, 24)])])].
 Proof. exact ex_unit_calls. Qed.
 Print Assumptions C02_example.
+
+(* ------------------------------------------------------------------ columns count characters *)
+(* the position clause of the decider cuts [end - start] characters after [start] characters of the line; on a line
+   pre ++ name ++ post -- any multi-byte text before the name, a name made of any letters -- the columns
+   [|pre|, |pre| + |name|) counted in CHARACTERS select exactly the name (and nothing else does: the cut is a function) *)
+Theorem C02_columns_select_name : forall pre name post,
+    forallb uchar_ok pre = true -> forallb uchar_ok name = true -> starts_clean post = true ->
+    take_runes (rune_count (ustr name)) (drop_runes (List.length pre) (ustr pre ++ ustr name ++ post)) = ustr name.
+Proof. exact columns_select_name. Qed.
+Print Assumptions C02_columns_select_name.
+
+Theorem C02_character_count : forall cs, forallb uchar_ok cs = true -> rune_count (ustr cs) = List.length cs.
+Proof. exact rune_count_ustr. Qed.
+Print Assumptions C02_character_count.
+
+(* for ASCII text (the conventional units of the earlier rounds) characters are bytes: nothing changed there *)
+Theorem C02_ascii_columns : forall n s,
+    ascii_only s = true -> rune_count s = String.length s /\ drop_runes n s = drop n s /\ take_runes n s = take n s.
+Proof. exact ascii_columns. Qed.
+Print Assumptions C02_ascii_columns.
+
+Example C02_example_columns :
+  rune_count "größe" = 5 /\ String.length "größe" = 7 /\
+  take_runes 5 (drop_runes 10 "  é  中 r. größe() ;") = "größe".
+Proof. exact ex_columns. Qed.
+Print Assumptions C02_example_columns.
